@@ -173,7 +173,7 @@ func TestRaceDriver(t *testing.T) {
 	// under test deadlocks for real (E1 reports that deterministically), the
 	// pass would hang for ever. It gets a generous deadline; passing it makes
 	// the pass incomplete (reported, exit status unaffected), never a verdict.
-	deadline := 15 * time.Minute
+	deadline := 6 * time.Minute
 	if ev.Thorough() {
 		deadline = 90 * time.Minute
 	}
